@@ -187,6 +187,19 @@ PROP_MODULES.append("AQ.Props.C02b")
 SECTIONS.append(lambda ctx, tier, r: c02b.run(ctx, tier))
 
 
+def replay(path):
+    """./check C02 --replay <file>"""
+    import json
+    tree.activate()
+    rec = json.load(open(path))
+    if not ((rec.get("replay") or {}).get("ops") or any(b.get("ops") for b in rec.get("broken", []) if isinstance(b, dict))):
+        if hasattr(c02b, "replay"):
+            return c02b.replay(path)
+    from harness.impl_codec import CodecImpl
+    names = ("pn-exhaustive", "pn-boundary", "pn-window", "pn-random")
+    return runner.replay_ops(path, CodecImpl, {n: oracle_pn for n in names})
+
+
 # ----------------------------------------------------------------- the check
 def main(tier):
     ctx = core.Ctx("C02", tier)
